@@ -122,7 +122,7 @@ func init() {
 						}
 					}
 					// the chained models: ToXYZ, adaptation, FromXYZ as Flocq expressions, then table[quant9]
-					if c.runner != nil && (pi%23 == 0 && !c.thorough || c.thorough && pi%29 == 0) {
+					if c.runner != nil && (pi%23 == 0 && !c.thorough || c.thorough && pi%101 == 0) {
 						to, from := probeSpace(src)
 						_, fromD := probeSpace(dst)
 						_ = from
